@@ -39,6 +39,8 @@ structure DOps (α : Type) where
   /-- `x == 0` -/
   isZero : α → Bool
   isNaN : α → Bool
+  /-- `fmodf(x, 2.0f) == 1.0f` -/
+  oddInt : α → Bool
 
 variable {α : Type}
 
@@ -62,10 +64,12 @@ def dk (O : DOps α) (clearVars : Bool) (op : Op) (av bv ov ad bd : α) : α :=
   | .atan2 => O.div (O.sub (O.mul ad bv) (O.mul bd av)) (O.add (O.pow av O.two) (O.pow bv O.two))
   -- ad * (bv * av.pow(bv - 1))    : the `bd` term is dropped ("bd is always zero")
   | .pow => O.mul ad (O.mul bv (O.pow av (O.sub bv O.one)))
-  -- (ad == 0).select(0, ad * (powf(av, 1/bv - 1) / bv))
+  -- base = (av < 0 && fmodf(bv, 2) == 1) ? -av : av          (since 426a6f0)
+  -- (ad == 0).select(0, ad * (powf(base, 1/bv - 1) / bv))
   | .nthRoot =>
+    let base := if O.lt av O.zero && O.oddInt bv then O.neg av else av
     if O.isZero ad then O.zero
-    else O.mul ad (O.div (O.pow av (O.sub (O.div O.one bv) O.one)) bv)
+    else O.mul ad (O.div (O.pow base (O.sub (O.div O.one bv) O.one)) bv)
   | .mod => ad
   | .nanfill => if O.isNaN av then bd else ad
   | .compare => O.zero
@@ -273,61 +277,51 @@ def pairs {β : Type} (as bs : List β) : List (β × β) :=
 def simdRound (simd count : Nat) : Nat :=
   if simd = 0 then count else ((count + simd - 1) / simd) * simd
 
-/-- Scratch the array-wise paths of `FeatureEvaluator::operator()` read without having written it
-    in the same call (kept explicit so that the model reads what the code reads):
-    `countSimd` is `count_simd` on entry to the clause; `staleD id lane` is the old content of
-    `d(id).col(lane)`; `staleV id lane` is the old content of `v(id, lane)` for `lane ≥ 1`
-    (column 0 was written by `valueAndPush`). -/
-structure FeatScratch (α : Type) where
-  countSimd : Nat
-  staleD : Nat → Nat → V3 α
-  staleV : Nat → Nat → α
-
 /-- kernel on all three rows of one lane -/
 def dk3 (O : DOps α) (cv : Bool) (op : Op) (av bv ov : α) (ad bd : V3 α) : V3 α :=
   ⟨dk O cv op av bv ov ad.x bd.x, dk O cv op av bv ov ad.y bd.y, dk O cv op av bv ov ad.z bd.z⟩
 
-/-- Unary array-wise path: chunks of `N` lanes; each chunk does `setCount(count)` (so every lane of
-    the chunk is computed), fills `v.row(a)` but NOT `v.row(id)`: the kernel's `ov` is `v(id, 0)`
-    in lane 0 and stale in the other lanes.  Returns the features and the new `count_simd`. -/
-def featUnary (O : DOps α) (cv : Bool) (N simd : Nat) (S : FeatScratch α) (c : Clause)
+/-- `count` of the last `run()` of an array-wise path that processed `n` lanes in chunks of `N` -/
+def lastChunk (N n : Nat) : Nat := if n = 0 then 0 else if n % N = 0 then N else n % N
+
+/-- Unary array-wise path (after the fixes aa9f57c / 3ea66fb): per chunk of `count ≤ N` lanes the
+    code replicates `v(a, 0)` and `v(id, 0)` into lanes `< count`, writes `d(a).col(lane)`, calls
+    `setCount(count)` and runs the kernel over `count_simd ≥ count` lanes (`le_simdRound`), then
+    reads lanes `< count` only.  Every lane it reads was therefore computed in this call from
+    `v(a,0)`, `v(id,0)` and the operand feature: no scratch of earlier calls is read.
+    Returns the features and the `count_simd` it leaves behind. -/
+def featUnary (O : DOps α) (cv : Bool) (N simd cs : Nat) (c : Clause)
     (v : Nat → α) (fa : List (Feat α)) : List (Feat α) × Nat :=
-  let n := fa.length
-  let out := (List.range n).zip fa |>.map fun (i, f) =>
-    let lane := i % N
-    let ov := if lane = 0 then v c.id else S.staleV c.id lane
-    ({ deriv := dk3 O cv c.op (v c.a) (v c.b) ov f.deriv f.deriv, eps := f.eps } : Feat α)
-  -- count_simd after the last `run()` (unchanged if there was no feature at all)
-  let lastCount := if n = 0 then 0 else if n % N = 0 then N else n % N
-  (out, if n = 0 then S.countSimd else simdRound simd lastCount)
+  (fa.map fun f =>
+     ({ deriv := dk3 O cv c.op (v c.a) (v c.b) (v c.id) f.deriv f.deriv, eps := f.eps } : Feat α),
+   if fa.length = 0 then cs else simdRound simd (lastChunk N fa.length))
 
-/-- Binary array-wise path: as above but WITHOUT `setCount`: lanes `≥ count_simd` of `d(id)` are
-    not computed by this call and keep their old content. -/
-def featBinary (O : DOps α) (F : FeatOracle α) (cv : Bool) (N : Nat) (S : FeatScratch α) (c : Clause)
-    (v : Nat → α) (fa fb : List (Feat α)) : List (Feat α) :=
-  let ps := pairs fa fb
-  (List.range ps.length).zip ps |>.map fun (i, (f, g)) =>
-    let lane := i % N
-    let d := if lane < S.countSimd then dk3 O cv c.op (v c.a) (v c.b) (v c.id) f.deriv g.deriv
-             else S.staleD c.id lane
-    ({ deriv := d, eps := F.mergeEps f.eps g.eps } : Feat α)
+/-- Binary array-wise path (same discipline since aa9f57c): lane `i` holds the pair
+    `(_ads[i / |bds|], _bds[i % |bds|])`; epsilons are merged WITHOUT a compatibility check. -/
+def featBinary (O : DOps α) (F : FeatOracle α) (cv : Bool) (N simd cs : Nat) (c : Clause)
+    (v : Nat → α) (fa fb : List (Feat α)) : List (Feat α) × Nat :=
+  ((pairs fa fb).map fun (f, g) =>
+     ({ deriv := dk3 O cv c.op (v c.a) (v c.b) (v c.id) f.deriv g.deriv,
+        eps := F.mergeEps f.eps g.eps } : Feat α),
+   if (pairs fa fb).length = 0 then cs else simdRound simd (lastChunk N (pairs fa fb).length))
 
-/-- `FeatureEvaluator::operator()` before deduplication.  `lt` compares values (`av < bv`). -/
-def featClauseRaw (O : DOps α) (F : FeatOracle α) (cv : Bool) (N simd : Nat) (S : FeatScratch α)
+/-- `FeatureEvaluator::operator()` before deduplication; `cs` is `count_simd` on entry (only
+    passed through / overwritten, never read). -/
+def featClauseRaw (O : DOps α) (F : FeatOracle α) (cv : Bool) (N simd cs : Nat)
     (c : Clause) (v : Nat → α) (f : Nat → List (Feat α)) : List (Feat α) × Nat :=
   let av := v c.a
   let bv := v c.b
   if c.op = Op.min then
-    if O.lt av bv || c.a == c.b then (f c.a, S.countSimd)
-    else if O.lt bv av then (f c.b, S.countSimd)
-    else ((pairs (f c.a) (f c.b)).flatMap fun (x, y) => F.tiePair true x y, S.countSimd)
+    if O.lt av bv || c.a == c.b then (f c.a, cs)
+    else if O.lt bv av then (f c.b, cs)
+    else ((pairs (f c.a) (f c.b)).flatMap fun (x, y) => F.tiePair true x y, cs)
   else if c.op = Op.max then
-    if O.lt av bv || c.a == c.b then (f c.b, S.countSimd)
-    else if O.lt bv av then (f c.a, S.countSimd)
-    else ((pairs (f c.a) (f c.b)).flatMap fun (x, y) => F.tiePair false x y, S.countSimd)
-  else if c.op.args = some 1 then featUnary O cv N simd S c v (f c.a)
-  else if c.op.args = some 2 then (featBinary O F cv N S c v (f c.a) (f c.b), S.countSimd)
-  else ([], S.countSimd)
+    if O.lt av bv || c.a == c.b then (f c.b, cs)
+    else if O.lt bv av then (f c.a, cs)
+    else ((pairs (f c.a) (f c.b)).flatMap fun (x, y) => F.tiePair false x y, cs)
+  else if c.op.args = some 1 then featUnary O cv N simd cs c v (f c.a)
+  else if c.op.args = some 2 then featBinary O F cv N simd cs c v (f c.a) (f c.b)
+  else ([], cs)
 
 /-- state of the feature walk: per-slot feature lists and `count_simd` -/
 structure FeatState (α : Type) where
@@ -335,14 +329,13 @@ structure FeatState (α : Type) where
   countSimd : Nat
 
 /-- The feature walk over a (specialised) tape.  `dedup` is the epilogue of each clause
-    (sort, unique, collapse); `staleD/staleV` as in `FeatScratch`. -/
+    (sort, unique, collapse). -/
 def featList (O : DOps α) (F : FeatOracle α) (dedup : List (Feat α) → List (Feat α)) (cv : Bool)
-    (N simd : Nat) (staleD : Nat → Nat → V3 α) (staleV : Nat → Nat → α) (v : Nat → α) :
-    List Clause → FeatState α → FeatState α
+    (N simd : Nat) (v : Nat → α) : List Clause → FeatState α → FeatState α
   | [], st => st
   | c :: rest, st =>
-    let st' := featList O F dedup cv N simd staleD staleV v rest st
-    let r := featClauseRaw O F cv N simd ⟨st'.countSimd, staleD, staleV⟩ c v st'.f
+    let st' := featList O F dedup cv N simd v rest st
+    let r := featClauseRaw O F cv N simd st'.countSimd c v st'.f
     { f := upd st'.f c.id (dedup r.1), countSimd := r.2 }
 
 /-- Specification side: the set of *branch gradients* of every slot.  Leaves have their seed;
@@ -369,20 +362,6 @@ def BranchSet (O : DOps α) (cv : Bool) (v : Nat → α) (seed : Nat → V3 α) 
         ∃ ga gb, BranchSet O cv v seed rest c.a ga ∧ BranchSet O cv v seed rest c.b gb ∧
           g = dk3 O cv c.op (v c.a) (v c.b) (v c.id) ga gb)
     else BranchSet O cv v seed rest k g
-
-/-- Hypothesis H1 of `feature_is_branch_gradient`: at every binary array-wise clause every lane in
-    use is below the `count_simd` the clause is entered with (what a `setCount(count)` in the
-    binary path would establish). -/
-def FeatCountsOK (O : DOps α) (F : FeatOracle α) (dedup : List (Feat α) → List (Feat α)) (cv : Bool)
-    (N simd : Nat) (staleD : Nat → Nat → V3 α) (staleV : Nat → Nat → α) (v : Nat → α) :
-    List Clause → FeatState α → Prop
-  | [], _ => True
-  | c :: rest, st =>
-    FeatCountsOK O F dedup cv N simd staleD staleV v rest st ∧
-    (c.op ≠ Op.min → c.op ≠ Op.max → c.op.args = some 2 →
-      ∀ i, i < (pairs ((featList O F dedup cv N simd staleD staleV v rest st).f c.a)
-                      ((featList O F dedup cv N simd staleD staleV v rest st).f c.b)).length →
-        i % N < (featList O F dedup cv N simd staleD staleV v rest st).countSimd)
 
 /-- `FeatureEvaluator::features`: keep the first occurrence of every distinct derivative -/
 def uniqDerivs (veq : V3 α → V3 α → Bool) (fs : List (Feat α)) : List (V3 α) :=
